@@ -447,7 +447,7 @@ func init() {
 		Rule: "Each case is a generated non-terminating Elk program: a spinning core (every loop form, modifier loops, labelled continue, endless ranges, infinite generator, native iterator methods driven by closures, macro-expanded loop, tail/mutual/deep recursion, channel-fed loops) with a random body, or a blocking operation (channel pop/push/for-in/next/select, sleep, await of a promise that does not settle, WaitGroup, Mutex, RWMutex), placed at top level, in a method/closure/constructor/class body/native callback/generator/finally, in an async function awaited from main or in go threads while main blocks. The program is compiled like the REPL does (additional abort checks) and run on a VM thread + thread pool sharing one Aborter; the context is made done (explicit cancel, parent cancel, deadline) at a logical time: after N executed instructions (N from the seed: 0, 1, small, medium, large; counted by the verif instruction hook) or when the program has become quiescent (blocked). Oracle: the main thread returns Std::ExecutionAbortedError (not a value, not another error, no Go panic) after at most K=20000 further instructions of all threads; if no instruction is executed any more and the thread is parked in a blocking operation that is a hang; after the return no thread of the run keeps executing instructions or stays parked. Distinct = shape x placement x body x cancel-time bucket x context kind.",
 		NumCases: func(tier string) int {
 			if tier == "thorough" {
-				return 20000
+				return 4500
 			}
 			return 900
 		},
